@@ -432,16 +432,21 @@ def changePass (cfg : Cfg) (d : Disk) (m : Mem) (old new : Nat) (priv : Bool) : 
     if old ≠ m.pubPass then (d, m, some .wrongPassphrase)
     else ({ d with pubPass := new }, { m with pubPass := new }, none)
 
-/-- `deletePrivateKeys` on one scope bucket (secret *taproot* script rows are not handled by the Go switch). -/
+/-- `deletePrivateKeys` on an account row -/
+def delPrivAcct (r : AcctRow) : AcctRow := if r.wo then r else { r with hasPriv := false }
+
+/-- `deletePrivateKeys` on an address row (before b81a3ff secret *taproot* script rows were not handled) -/
+def delPrivAddr (cfg : Cfg) : ARow → ARow
+  | .chain => .chain
+  | .imp _ => .imp false
+  | .script _ => .script false
+  | .wscript tap sec hs => if (!tap || cfg.fo1) && sec then .wscript tap sec false else .wscript tap sec hs
+
+/-- `deletePrivateKeys` on one scope bucket -/
 def delPrivScope (cfg : Cfg) (s : ScopeDisk) : ScopeDisk :=
   { s with
-    accts := s.accts.map (fun p => (p.1, if p.2.wo then p.2 else { p.2 with hasPriv := false }))
-    addrs := s.addrs.map (fun p => (p.1,
-      match p.2 with
-      | .chain => .chain
-      | .imp _ => .imp false
-      | .script _ => .script false
-      | .wscript tap sec hs => if (!tap || cfg.fo1) && sec then .wscript tap sec false else .wscript tap sec hs)) }
+    accts := s.accts.map (fun p => (p.1, delPrivAcct p.2))
+    addrs := s.addrs.map (fun p => (p.1, delPrivAddr cfg p.2)) }
 
 def convertWO (cfg : Cfg) (d : Disk) (m : Mem) : Disk × Mem :=
   if m.watchOnly then (d, m)
